@@ -31,6 +31,32 @@ type ErrLeaf struct {
 	V     ssa.Value
 	At    ssa.Instruction
 	Class ErrClass
+	// Succ is the block of the φ-node this leaf entered through when At is
+	// the terminator of a predecessor (the edge At.Block()→Succ carries the
+	// branch condition of At, which does not dominate At itself).
+	Succ *ssa.BasicBlock
+}
+
+// LeafGuarded reports whether a fact accepted by pred holds where the leaf is
+// decided: it dominates l.At, or it is the condition of the very edge through
+// which the leaf's value flows into a φ-node.
+func LeafGuarded(l ErrLeaf, pred func(Fact) bool) bool {
+	if GuardedBy(l.At, pred) {
+		return true
+	}
+	iff, ok := l.At.(*ssa.If)
+	if !ok || l.Succ == nil {
+		return false
+	}
+	b := iff.Block()
+	if len(b.Succs) == 2 && b.Succs[0] != b.Succs[1] {
+		for i, sc := range b.Succs {
+			if sc == l.Succ {
+				return pred(CondFact(iff.Cond, i == 0))
+			}
+		}
+	}
+	return false
 }
 
 // ErrLeaves decomposes v (as observed at instruction at) into its leaves,
@@ -43,6 +69,7 @@ func ErrLeaves(v ssa.Value, at ssa.Instruction) []ErrLeaf {
 		at ssa.Instruction
 	}
 	seen := map[key]bool{}
+	var succ *ssa.BasicBlock
 	var rec func(v ssa.Value, at ssa.Instruction)
 	rec = func(v ssa.Value, at ssa.Instruction) {
 		k := key{v, at}
@@ -54,7 +81,10 @@ func ErrLeaves(v ssa.Value, at ssa.Instruction) []ErrLeaf {
 		case *ssa.Phi:
 			for i, e := range x.Edges {
 				pred := x.Block().Preds[i]
+				saved := succ
+				succ = x.Block()
 				rec(e, pred.Instrs[len(pred.Instrs)-1])
+				succ = saved
 			}
 			return
 		case *ssa.ChangeInterface:
@@ -71,11 +101,11 @@ func ErrLeaves(v ssa.Value, at ssa.Instruction) []ErrLeaf {
 						if s.Parent() == x.Parent() {
 							rec(s.Val, s)
 						} else {
-							out = append(out, ErrLeaf{s.Val, s, classifyRoot(s.Val, s)})
+							out = append(out, ErrLeaf{V: s.Val, At: s, Class: classifyRoot(s.Val, s)})
 						}
 					}
 					if zero {
-						out = append(out, ErrLeaf{x.X, at, ErrNil})
+						out = append(out, ErrLeaf{V: x.X, At: at, Class: ErrNil})
 					}
 					if len(sts) > 0 || zero {
 						return
@@ -83,7 +113,7 @@ func ErrLeaves(v ssa.Value, at ssa.Instruction) []ErrLeaf {
 				}
 			}
 		}
-		out = append(out, ErrLeaf{v, at, classifyRoot(v, at)})
+		out = append(out, ErrLeaf{V: v, At: at, Class: classifyRoot(v, at), Succ: succ})
 	}
 	rec(v, at)
 	return out
